@@ -77,6 +77,8 @@ def make_source(case, src):
         return
     crng = random.Random(case['seed'])
     data = rnd_cube(crng, case['shape'])
+    if case.get('mute'):          # a bottom mute: the deepest samples of every trace are zero (all-zero disk blocks at the end)
+        data[:, :, -max(1, min(8, ns - 1)):] = 0
     if case['route'] == 'numpy':
         write_numpy_sgz(src, data, bpv=case.get('bpv', 2), blockshape=case.get('blockshape', (4, 4, -1)),
                         ilines=np.arange(10, 10 + n_il), xlines=np.arange(100, 100 + 2 * n_xl, 2), samples=np.arange(ns) * 4.0)
@@ -292,7 +294,7 @@ def build_cases(tier):
             cfg = 'numpy' if route == 'numpy' else cfgs[(k // 2) % len(cfgs)]
             if cfg == 'strip' and irregular:
                 cfg = 'dup'
-        cases.append(dict(shape=sh, route=route, irregular=irregular, cfg=cfg, seed=rng.randrange(2 ** 30)))
+        cases.append(dict(shape=sh, route=route, irregular=irregular, cfg=cfg, seed=rng.randrange(2 ** 30), mute=(cfg in ('strip', 'numpy') and k % 2 == 0)))
     cases.append(dict(shape=(5, 5, 50), route='fixture', fixture='small_2bit.sgz', irregular=False, cfg='pre-0.2.2', seed=0))
     return cases
 
@@ -416,7 +418,7 @@ src, out = os.path.join(D, 'src.sgz'), os.path.join(D, 'out.sgz')
 t_start = time.time()
 for case_no, case in enumerate(cases):
     canon = (case['shape'], case['irregular'], case['cfg'], case['route'])
-    inp = {'shape': list(case['shape']), 'irregular': case['irregular'], 'headers': case['cfg'], 'route': case['route'], 'seed': case['seed']}
+    inp = {'shape': list(case['shape']), 'irregular': case['irregular'], 'headers': case['cfg'], 'route': case['route'], 'seed': case['seed'], 'bottom_mute': bool(case.get('mute'))}
     for p in (src, out):
         if os.path.exists(p):
             os.remove(p)
